@@ -7,7 +7,7 @@
    The main statement holds for every class and every input (no domain restriction since the
    empty-string alias was repaired in /repo 7108448). *)
 From Coq Require Import List String Ascii ZArith Bool.
-From Verif Require Import Regex PyK PyK_strat PyK_alias FieldDecl FieldDeclProofs KeyModel KeyImpl KeyProofs KeyDecl KeyCfg KeyNested KeyRewrite KeyHook.
+From Verif Require Import Regex PyK PyK_strat PyK_alias FieldDecl FieldDeclProofs KeyModel KeyImpl KeyProofs KeyDecl KeyCfg KeyNested KeyRewrite KeyHook KeyDc KeyDcDecl.
 From VerifGen Require Import K4 K5.
 Import ListNotations.
 Open Scope string_scope.
@@ -258,6 +258,56 @@ Example C09_nonvacuous_plain_config :
   /\ impl_from_hier ls None [(KeyS "ax", 1%Z); (KeyS "q", 2%Z)] = Ok (OExtra [KeyS "q"])
   /\ impl_from_hier ls None [(KeyS "x", 1%Z)] = Ok (OInst [("x", Some (KeyS "x", 1%Z))]).
 Proof. repeat split; vm_compute; reflexivity. Qed.
+
+(* ---- arbitrary MROs (diamonds): a model of CPython's dataclass walk and of get_type_hints ---- *)
+
+(* the declaration a class has for a name: its own, else that of the first class of its MRO whose cumulative
+   __dataclass_fields__ has the name *)
+Theorem C09_dc_lookup : forall cums own n,
+  lookup_decl n (dc_process cums own)
+  = match lookup_decl n (rev own) with Some p => Some p | None => first_in cums n end.
+Proof. exact dc_process_lookup. Qed.
+Print Assumptions C09_dc_lookup.
+
+(* for single inheritance and for unrelated bases the walk selects the declarations of KeyModel.collect *)
+Theorem C09_dc_chain : forall ls l n,
+  lookup_decl n (dc_process (chain_cums (rev ls)) (l_decls l)) = lookup_decl n (collect (ls ++ [l])).
+Proof. exact dc_chain_collect. Qed.
+Print Assumptions C09_dc_chain.
+
+Theorem C09_dc_roots : forall ls l n,
+  lookup_decl n (dc_process (roots_cums (rev ls)) (l_decls l)) = lookup_decl n (collect (ls ++ [l])).
+Proof. exact dc_roots_collect. Qed.
+Print Assumptions C09_dc_roots.
+
+(* the translated CodeBuilder.dataclass_fields (K5) on an arbitrary MRO: the alias data of every name is that of
+   the declaration the walk selects *)
+Theorem C09_dataclass_fields_dc :
+  forall (mdf: fld -> kv), (forall f, k_dict_get (mdf f) (KStr "alias") = Ok (enc_ostr (f_meta f))) ->
+  forall (cums: list decls) (own: decls) (extra: list pyclass) (c0: pyclass) nsd ownf,
+  Forall nodup_names cums -> Forall fieldless extra ->
+  sd_get nsd "__dataclass_fields__" = None -> ~ In "__dataclass_fields__" (map dname own) ->
+  (forall n f i, lookup_decl n (rev own) = Some (f, i) ->
+     alias_md (own_result nsd ownf n) = Ok (enc_ostr (f_meta f))) ->
+  exists d,
+    dataclass_fields (KTuple (enc_class c0 :: map enc_class (map (fun c => Some (cum mdf c)) cums ++ extra)))
+                     (KList (map KStr (map dname own))) (enc_namespace nsd ownf)
+    = Ok (KDict (enc_sd d))
+    /\ forall n, alias_md (sd_get d n) = Ok (enc_ostr (decl_alias (dc_process cums own) n)).
+Proof. exact dataclass_fields_dc. Qed.
+Print Assumptions C09_dataclass_fields_dc.
+
+(* diamond K(B, C), B(A), C(A): A.x plain; C re-declares x with metadata alias "cx" and Annotated Alias "cann".
+   K's Field for x is A's (through B: no metadata alias), K's type for x is C's: x is read from "cann" *)
+Example C09_nonvacuous_diamond :
+  let a := mkPC [(mkF "x" None None true, true)] [] in
+  let b := mkPC [(mkF "y" None None true, true)] [0%nat] in
+  let c := mkPC [(mkF "x" (Some "cx") (Some [AAlias "cann"]) true, true)] [0%nat] in
+  let k := mkPC [] [1%nat; 2%nat; 0%nat] in
+  let cl := dc_class [a; b; c; k] 3 default_cfg None in
+  map (alias_of cl) (c_fields cl) = [Some "cann"; None]
+  /\ keymodel cl [(KeyS "cx", 1%Z); (KeyS "cann", 2%Z); (KeyS "x", 3%Z)] = OInst [("x", Some (KeyS "cann", 2%Z)); ("y", None)].
+Proof. split; vm_compute; reflexivity. Qed.
 
 (* ---- __pre_deserialize__: the keys are resolved, and the extra keys found, on the mapping the hook of the
    nearest class returns ---- *)
